@@ -26,7 +26,7 @@ from . import rewrite
 from .source import ExtractError, mask, match_close, norm
 
 DIRECTIVE = re.compile(r'^\s*//@(\w+!?)\s*(.*)$')
-RAW_KINDS = ('spec', 'loop', 'before', 'after', 'sig', 'prefix', 'closure', 'tail', 'loopstart', 'loopend', 'head')
+RAW_KINDS = ('spec', 'loop', 'before', 'after', 'sig', 'prefix', 'closure', 'tail', 'loopstart', 'loopend', 'head', 'at')
 
 
 class ItemSpec:
@@ -321,6 +321,10 @@ def build_item(src, spec, idx, log):
                     break
                 j += 1
             inserts.append((j, [''] + lines, okey))
+        elif kind == 'at':
+            a = _find_anchor(text, m, arg, what)
+            mo_a = re.match(r'"((?:[^"\\]|\\.)*)"', arg)
+            inserts.append((a + len(_unesc(mo_a.group(1))), [''] + lines, okey))
         elif kind == 'head':
             inserts.append((hdr_end + 1, [''] + lines, okey))
         elif kind == 'loopstart':
